@@ -43,13 +43,15 @@ func (c *SqlConf) opts(query string) []qsql.ConfigFunc {
 	if c.Table != "" {
 		opts = append(opts, qsql.Table(c.Table))
 	}
-	switch c.Dialect {
-	case "postgres":
-		opts = append(opts, qsql.Postgres())
-	case "sqlite":
-		opts = append(opts, qsql.SQLite())
-	case "mysql":
-		opts = append(opts, qsql.MySQL())
+	if !c.PresetLast {
+		switch c.Dialect {
+		case "postgres":
+			opts = append(opts, qsql.Postgres())
+		case "sqlite":
+			opts = append(opts, qsql.SQLite())
+		case "mysql":
+			opts = append(opts, qsql.MySQL())
+		}
 	}
 	if c.Escape != 0 {
 		opts = append(opts, qsql.EscapeChar(rune(c.Escape)))
@@ -70,6 +72,16 @@ func (c *SqlConf) opts(query string) []qsql.ConfigFunc {
 			pairs = append(pairs, qsql.CoercePair{Column: n.String(), Type: k})
 		}
 		opts = append(opts, qsql.Coerce(pairs...))
+	}
+	if c.PresetLast {
+		switch c.Dialect {
+		case "postgres":
+			opts = append(opts, qsql.Postgres())
+		case "sqlite":
+			opts = append(opts, qsql.SQLite())
+		case "mysql":
+			opts = append(opts, qsql.MySQL())
+		}
 	}
 	return opts
 }
